@@ -498,7 +498,6 @@ func IsErrorType(t types.Type) bool {
 	return ok && n.Obj().Pkg() == nil && n.Obj().Name() == "error"
 }
 
-
 // LiteralTableLen: v is a slice of a local array literal ([]T{...} lowered to
 // "slice new [N]T"); returns N.
 func LiteralTableLen(v ssa.Value) (int64, bool) {
@@ -583,7 +582,6 @@ func TableRows(pth Path) (rows []ssa.Value, cell *ssa.IndexAddr, ok bool) {
 	}
 	return rows, ia, true
 }
-
 
 var fieldStoreCount map[string]int
 
